@@ -31,3 +31,54 @@ package util
 //@   ensures result <==> exists i int :: 0 <= i && i < len(l) && contains(b, l[i])
 //@   loop 1 invariant -1 <= rangeindex && rangeindex < len(l)
 //@   loop 1 invariant forall j int :: 0 <= j && j <= rangeindex ==> !contains(b, l[j])
+
+// ---- C20: the byte queue (every sequential history) ------------------------------------------------
+// Abstract view: the slice q.queue itself. Representation invariant RI: depth == len(queue), and the
+// one-slot depth mailbox holds exactly one token whose value is depth. Channel operations on the
+// mailbox carry typestate obligations (a receive needs the token present, a send needs the slot
+// empty; otherwise the operation would block forever in a sequential run).
+
+//@ chanmode Queue.depthChan mailbox
+//@ chanmode NewQueue:depthChan mailbox
+//@ spec RI(q *Queue) bool := q.depth == len(q.queue) && q.depthChan != nil && chlen(q.depthChan) == 1 && chval(q.depthChan) == q.depth && !closed(q.depthChan)
+
+//@ func NewQueue [C20]
+//@   modifies alloc()
+//@   ensures fresh(result) && RI(result) && len(result.queue) == 0
+
+//@ func (*Queue).Enqueue [C20]
+//@   requires RI(q)
+//@   modifies q.queue, q.depth
+//@   ensures #ri RI(q)
+//@   ensures #fifo-tail q.queue == old(q.queue) ++ strs(b)
+
+//@ func (*Queue).Requeue [C20]
+//@   requires RI(q)
+//@   modifies q.queue, q.depth
+//@   ensures #ri RI(q)
+//@   ensures #put-back-at-front q.queue == strs(b) ++ old(q.queue)
+
+//@ func (*Queue).Dequeue [C20]
+//@   requires RI(q)
+//@   modifies q.queue, q.depth
+//@   ensures #ri RI(q)
+//@   ensures #empty-yields-nothing len(old(q.queue)) == 0 ==> len(result) == 0 && q.queue == old(q.queue)
+//@   ensures #head len(old(q.queue)) > 0 ==> result == old(q.queue)[0] && q.queue == old(q.queue)[1:len(old(q.queue))]
+
+//@ func (*Queue).DequeueAll [C20]
+//@   requires RI(q)
+//@   modifies q.queue, q.depth
+//@   ensures #ri RI(q)
+//@   ensures #empty-yields-nothing len(old(q.queue)) == 0 ==> len(result) == 0 && q.queue == old(q.queue)
+//@   ensures #everything-in-order len(old(q.queue)) > 0 ==> result == concatAll(old(q.queue)) && len(q.queue) == 0
+
+//@ func (*Queue).getDepth [C20]
+//@   requires RI(q)
+//@   modifies nothing
+//@   ensures #ri RI(q)
+//@   ensures #depth result == q.depth && result == len(q.queue)
+
+//@ func (*Queue).GetDepth [C20]
+//@   requires RI(q)
+//@   modifies nothing
+//@   ensures #depth result == len(q.queue)
